@@ -153,7 +153,11 @@ class TensorEval:
             if isinstance(st, ast.AugAssign) and isinstance(st.target, (ast.Name, ast.Attribute)):
                 k = st.target.id if isinstance(st.target, ast.Name) else norm(st.target)
                 cur = self.ev(f, st.target if isinstance(st.target, ast.Attribute) else ast.Name(id=k, ctx=ast.Load()), env)
-                env[k] = self.binop(st.op, cur, self.ev(f, st.value, env))
+                res = self.binop(st.op, cur, self.ev(f, st.value, env))
+                if isinstance(cur, np.ndarray) and isinstance(res, np.ndarray) and res.shape == cur.shape and (cur.dtype == object or res.dtype != object):
+                    cur[...] = res            # `a op= b` on an array acts in place: every other name of the array sees it
+                    res = cur
+                env[k] = res
                 continue
             if isinstance(st, ast.While) and not st.orelse:
                 for _ in range(2000):
@@ -224,7 +228,16 @@ class TensorEval:
         if isinstance(op, (ast.FloorDiv, ast.Mod)) and isinstance(l, (int, np.integer)) and isinstance(r, (int, np.integer)) and r != 0:
             return l // r if isinstance(op, ast.FloorDiv) else l % r
         if isinstance(op, ast.MatMult):
-            return np.matmul(l, r) if False else (_ for _ in ()).throw(Unknown('matrix product'))
+            if isinstance(l, np.ndarray) and isinstance(r, np.ndarray) and 1 <= l.ndim <= 2 and 1 <= r.ndim <= 2:
+                lo = l.astype(object) if l.dtype != object else l
+                ro = r.astype(object) if r.dtype != object else r
+                if lo.shape[-1] == 0:        # empty contraction: zeros of the result shape (object dot has no identity to start from)
+                    shp = lo.shape[:-1] + ro.shape[1:]
+                    out = np.empty(shp, dtype=object)
+                    out[...] = Q.const(0)
+                    return out
+                return np.dot(lo, ro)
+            raise Unknown('matrix product')
         raise Unknown(f'operator {type(op).__name__}')
 
     def index(self, f, sl, env):
